@@ -38,7 +38,7 @@ ATTRS.update(JOIN_ATTRS)
 # pseudo attribute of the collection harness (tools/c01_coll.py, coq/Model/C01Coll.v): the value of a count-subquery
 ATTRS['group.cnt'] = (30, 'int', False)
 # pseudo attributes of the formula harness (coq/Model/C01Form.v): column 40 + k holds the value of the k-th subquery; ('sub', 40 + k) is the
-# truth value of an EXISTS / IN subquery (leaf ESub), 'group.q<40 + k>' the integer of a count-subquery
+# truth value of an EXISTS / IN subquery (leaf ESub), ('col', 40 + k, type, nullable) the value of a scalar subquery (leaf ECol)
 for _k in range(40, 50): ATTRS['group.q%d' % _k] = (_k, 'int', False)
 BY_ID = {v[0]: k for k, v in ATTRS.items()}
 
@@ -110,6 +110,7 @@ def _ty_of(e, ty_of):
     if k == 'none': return 'none'
     if k == 'param': return e[2] if e[2] is not None else 'none'
     if k == 'sub': return 'cond'
+    if k == 'col': return e[2]
     if k == 'arith':
         ta, tb = ty_of(e[2]), ty_of(e[3])
         if (ta, tb) in (('int', 'int'), ('int', 'bool'), ('bool', 'int')): return 'int'
@@ -153,7 +154,7 @@ def _ty_of(e, ty_of):
 
 def children(e):
     k = e[0]
-    if k in ('attr', 'int', 'str', 'bool', 'none', 'param', 'sub'): return []
+    if k in ('attr', 'int', 'str', 'bool', 'none', 'param', 'sub', 'col'): return []
     if k in ('arith', 'cmp', 'cmpc'): return [e[2], e[3]]
     if k in ('neg', 'abs', 'len', 'not', 'upper', 'lower'): return [e[1]]
     if k in ('concat', 'and', 'or'): return [e[1], e[2]]
@@ -167,7 +168,7 @@ def children(e):
 
 
 def has_attr(e):
-    return e[0] in ('attr', 'sub') or any(has_attr(c) for c in children(e))
+    return e[0] in ('attr', 'sub', 'col') or any(has_attr(c) for c in children(e))
 
 
 def wf(e):
@@ -176,7 +177,7 @@ def wf(e):
     not negative (`-1` is such an external expression)."""
     k = e[0]
     if k == 'int': return e[1] >= 0
-    if k in ('attr', 'str', 'bool', 'none', 'param', 'sub'): return True
+    if k in ('attr', 'str', 'bool', 'none', 'param', 'sub', 'col'): return True
     if not has_attr(e): return False
     if k == 'in' and not all(l[0] != 'int' or l[1] >= 0 for l in e[3]): return False
     return all(wf(c) for c in children(e))
@@ -225,6 +226,7 @@ def src(e):
     if k == 'none': return 'None'
     if k == 'param': return 'x%d' % e[1]
     if k == 'sub': return 'p.group.s%d' % e[1]
+    if k == 'col': return 'p.group.q%d' % e[1]
     if k == 'arith': return '(%s %s %s)' % (src(e[2]), e[1], src(e[3]))
     if k == 'neg': return '(-%s)' % src(e[1])
     if k == 'abs': return 'abs(%s)' % src(e[1])
@@ -275,6 +277,7 @@ def coq(e, nullable=None):
     if k == 'none': return 'ENone'
     if k == 'param': return '(EParam %d %s)' % (e[1], 'None' if e[2] is None else '(Some %s)' % _VTY[e[2]])
     if k == 'sub': return '(ESub %d)' % e[1]
+    if k == 'col': return '(ECol %d %s %s)' % (e[1], _VTY[e[2]], 'true' if e[3] else 'false')
     if k == 'arith': return '(EArith %s %s %s)' % (_AOP[e[1]], r(e[2]), r(e[3]))
     if k == 'neg': return '(ENeg %s)' % r(e[1])
     if k == 'abs': return '(EAbs %s)' % r(e[1])
@@ -444,6 +447,7 @@ def ref(e, row, params, k3=False):
     if k == 'none': return None
     if k == 'param': return params[e[1]]
     if k == 'sub': return row['group.s%d' % e[1]]
+    if k == 'col': return row['group.q%d' % e[1]]
     if k == 'arith':
         a, b = R(e[2]), R(e[3])
         if a is None or b is None: return None
